@@ -103,7 +103,16 @@ class Interp:
         self.process(fn, fi, fi['rpo'], pending, rets, None)
         out = []
         single = len(rets) == 1
+        prefix = 'L%d.%s.' % (depth, fn.name)
         for (s, rv) in rets:
+            for rn in [x for x in s.mem if x.startswith(prefix)]:
+                del s.mem[rn]
+                s.owned.discard(rn)
+                s.regions.pop(rn, None)
+                s.tags.pop(('default', rn), None)
+                s.tags.pop(('havoc', rn), None)
+            if isinstance(rv, Ptr) and rv.region.startswith(prefix):
+                rv = Top('ptr', 'dangling pointer to local of %s' % fn.name)
             # the caller's frame object is shared by all exit disjuncts: give each its own copy
             s.frames = s.frames[:-2] + [s.frames[-2] if single else s.frames[-2].copy()]
             out.append((s, rv))
@@ -146,6 +155,9 @@ class Interp:
         """dedupe identical disjuncts; enforce the cap"""
         if len(sts) <= 1:
             return sts
+        import os
+        if os.environ.get('ABSINT_TRACE') and len(sts) >= int(os.environ['ABSINT_TRACE']):
+            print('  [trace] %s:%s (line %d) %d states' % (fn.name, bn, fn.blocks[bn].instrs[0].line, len(sts)))
         cap = self.ctx.limits['cap']
         if len(sts) > cap:
             groups = {}
@@ -402,33 +414,86 @@ class Interp:
 
     # ---- loops -----------------------------------------------------------------------------------------
     def run_loop(self, fn, fi, lp, entry, rets):
+        import os
         head = lp['head']
         body_order = [b for b in fi['rpo'] if b in lp['body']]
         log = self.hooks.log
         heads = self.group_and_join(fn, lp, entry, 'entry')
+        results = {}      # id(head state) -> (head, backs, outs, logsegment)
         rounds = 0
         while True:
             rounds += 1
             self.ctx.stats['loop_rounds'] += 1
             if rounds > MAX_LOOP_ROUNDS:
                 raise AnalysisBroken('loop at %s:%s did not stabilise in %d rounds' % (fn.name, head, MAX_LOOP_ROUNDS))
-            mark = len(log)
-            backs = []
-            outs = {}
-            pend = {head: [h.copy() for h in heads]}
-            for h in pend[head]:
-                h.tags[('loophead', fn.name, head)] = self.snapshot_places(h, fn, lp)
-            self.process(fn, fi, body_order, pend, rets, (lp, backs, outs))
-            for b in backs:
-                self.hooks.at_backedge(b, fn, head)
-            uncovered = [b for b in backs if not self.covered(fn, lp, b, heads)]
+            newres = {}
+            for h in heads:
+                r = results.get(id(h))
+                if r is None:
+                    mark = len(log)
+                    backs = []
+                    outs = {}
+                    hc = h.copy()
+                    hc.tags[('loophead', fn.name, head)] = self.snapshot_places(hc, fn, lp)
+                    self.process(fn, fi, body_order, {head: [hc]}, rets, (lp, backs, outs))
+                    for b in backs:
+                        self.hooks.at_backedge(b, fn, head)
+                    seg = log[mark:]
+                    del log[mark:]
+                    r = (h, backs, outs, seg)
+                newres[id(h)] = r
+            results = newres
+            allbacks = []
+            for h in heads:
+                allbacks.extend(results[id(h)][1])
+            self._leq_dbg = rounds >= 8 and fn.name == '_advance_parsing'
+            uncovered = [b for b in allbacks if not self.covered(fn, lp, b, heads)]
+            self._leq_dbg = False
+            if os.environ.get('ABSINT_LOOPS'):
+                print('  [loop] %s:%s round %d heads=%d backs=%d uncovered=%d instr=%d' % (
+                    fn.name, head, rounds, len(heads), len(allbacks), len(uncovered), self.ctx.stats['instr']))
+                if os.environ.get('ABSINT_LOOPS') == '2':
+                    ks = [self.group_key(h, fn, lp) for h in heads]
+                    base = ks[0]
+                    for k in ks:
+                        print('     head key diff:', [x for x in k if x not in base][:12])
+            if not uncovered and os.environ.get('ABSINT_HEADS'):
+                for h in heads:
+                    print('   [head] %s:%s path=%r' % (fn.name, head, h.pathlist()[-1:]))
+                    for rn in ('P',):
+                        for k, (o, sz, v) in sorted(h.mem.get(rn, {}).items()):
+                            print('        %s%r = %r %s' % (rn, k[0][0], v, h.store.bounds(v.a) if isinstance(v, Int) else ''))
+                    hs = {p[1] for p in h.tags.get('_places', ())}
+                    for e in h.store.rel:
+                        if any(x in hs for x in e.t):
+                            print('        rel %r >= 0' % e)
             if not uncovered:
-                self.hooks.on_loop(fn, head, {'rounds': rounds, 'heads': len(heads), 'backedges': len(backs),
+                outs = {}
+                for h in heads:
+                    _, hb, ho, seg = results[id(h)]
+                    log.extend(seg)
+                    for tgt, sts in ho.items():
+                        outs.setdefault(tgt, []).extend(sts)
+                self.hooks.on_loop(fn, head, {'rounds': rounds, 'heads': len(heads), 'backedges': len(allbacks),
                                               'exits': sum(len(v) for v in outs.values()),
-                                              'backs': backs, 'head_states': heads})
+                                              'backs': allbacks, 'head_states': heads})
                 return outs
-            del log[mark:]
             heads = self.group_and_join(fn, lp, heads + uncovered, 'widen', widen=True, prev=heads)
+            if os.environ.get('ABSINT_DBG') and rounds >= 8:
+                for u in uncovered[:2]:
+                    ku = self.group_key(u, fn, lp)
+                    for h in heads:
+                        if self.group_key(h, fn, lp) == ku:
+                            print('   [dbg2] u.cell38=%r h.cell38=%r h.last=%r' % (u.mem.get('STATE', {}).get(((38, ()), 1)), h.mem.get('STATE', {}).get(((38, ()), 1)), h.pathlist()[-1][2]))
+                            self._leq_dbg = True
+                            print('   [dbg2] leq ->', self.leq(fn, lp, u, h))
+                            self._leq_dbg = False
+            if os.environ.get('ABSINT_DBG') and False:
+                for h in heads:
+                    c = h.mem.get('STATE', {}).get(((38, ()), 1))
+                    print('   [dbg] head key=%x cell38=%r results-cached=%s last=%r' % (hash(self.group_key(h, fn, lp)) & 0xffffff, c, id(h) in results, h.pathlist()[-1][2][:60]))
+                for u in uncovered[:3]:
+                    print('   [dbg] unc  key=%x cell38=%r' % (hash(self.group_key(u, fn, lp)) & 0xffffff, u.mem.get('STATE', {}).get(((38, ()), 1))))
 
     def snapshot_places(self, st, fn, lp):
         """values of the loop-carried places at the head (for ranking obligations)"""
@@ -464,17 +529,56 @@ class Interp:
             fi[key] = r
         return r
 
+    def flag_phis(self, fn, lp):
+        """phis of the loop head that are flag-like (partitioned by constant value); induction variables
+        (phi fed back through add/sub of itself) are merged and widened instead"""
+        key = ('flagphis', lp['head'])
+        fi = self.fninfo[fn.name]
+        if key in fi:
+            return fi[key]
+        out = set()
+        for ins in fn.blocks[lp['head']].instrs:
+            if ins.op != 'phi':
+                break
+            induction = False
+            for (v, lb) in ins.attrs['incoming']:
+                if lb not in lp['body'] or v[0] != 'local':
+                    continue
+                # walk back through casts to an add/sub that uses the phi (through casts)
+                cur = v[1]
+                for _ in range(6):
+                    d = fn.defs.get(cur)
+                    if d is None:
+                        break
+                    if d.op in ('zext', 'sext', 'trunc'):
+                        cur = d.ops[0][1][1] if d.ops[0][1][0] == 'local' else None
+                        if cur is None:
+                            break
+                        continue
+                    if d.op in ('add', 'sub'):
+                        for (t, o) in d.ops:
+                            c2 = o[1] if o[0] == 'local' else None
+                            for _ in range(4):
+                                if c2 == ins.res:
+                                    induction = True
+                                    break
+                                dd = fn.defs.get(c2) if c2 else None
+                                if dd is not None and dd.op in ('zext', 'sext', 'trunc') and dd.ops[0][1][0] == 'local':
+                                    c2 = dd.ops[0][1][1]
+                                else:
+                                    break
+                    break
+            if not induction:
+                out.add(ins.res)
+        fi[key] = out
+        return out
+
     def group_key(self, st, fn, lp):
         key = []
         env = st.top.env
         S = st.store
         names = sorted(self.live_names(fn, lp)) if lp is not None else sorted(env)
-        phis = set()
-        if lp is not None:
-            for ins in fn.blocks[lp['head']].instrs:
-                if ins.op != 'phi':
-                    break
-                phis.add(ins.res)
+        phis = self.flag_phis(fn, lp) if lp is not None else set()
         for n in names:
             v = env.get(n)
             if v is None:
@@ -491,7 +595,7 @@ class Interp:
             r = st.regions.get(rname)
             islocal = rname.startswith('L')
             if r is not None and r.kind == 'array':
-                key.append((rname, st.tags.get(('default', rname)), st.tags.get(('havoc', rname)) == 'all'))
+                key.append((rname, st.tags.get(('default', rname))))
                 continue
             for k, (o, s, v) in sorted(st.mem[rname].items(), key=lambda kv: repr(kv[0])):
                 if o.t:
@@ -507,7 +611,7 @@ class Interp:
                     key.append((rname, k, v.key()))
                 else:
                     key.append((rname, k, 'T'))
-            key.append((rname, st.tags.get(('default', rname)), st.tags.get(('havoc', rname)) == 'all'))
+            key.append((rname, st.tags.get(('default', rname))))
         key.extend(self.hooks.partition_extra(st))
         return tuple(key)
 
@@ -527,7 +631,13 @@ class Interp:
                 out.append(g[0])
             else:
                 self.ctx.stats['joins'] += 1
-                out.append(self.generalise(fn, g, lp, why, widen=widen, prev=prev))
+                hh = self.generalise(fn, g, lp, why, widen=widen, prev=prev)
+                import os
+                if os.environ.get('ABSINT_DBG'):
+                    cs = [x.mem.get('STATE', {}).get(((38, ()), 1)) for x in g]
+                    if len({repr(c) for c in cs}) > 1:
+                        print('   [dbg3] group of %d: cells=%r -> %r' % (len(g), cs[:6], hh.mem.get('STATE', {}).get(((38, ()), 1))))
+                out.append(hh)
         return out
 
     # ---- join with candidate invariants ---------------------------------------------------------------------
@@ -638,8 +748,15 @@ class Interp:
             ctrl = ctrl | s.ctrl
         H.ctrl = ctrl
         # --- candidate invariants over head symbols
-        cands = self.candidates(H, states, sig, places, common)
+        import os
+        if os.environ.get('ABSINT_PLACE'):
+            for (d, hs, w) in places:
+                if d[0] == 'P' and d[1][0][0] in (1, 48):
+                    print('   [place] %r %s houdini=%s: %r' % (d, hs, bool(widen and base.tags.get('_places')), [sg[hs] for sg in sig][:12]))
+        houdini = bool(widen and base.tags.get('_places'))
+        cands = self.candidates(H, states, sig, places, common, houdini)
         kept = 0
+        good = {}
         for c in cands:
             ok = True
             for i, s in enumerate(states):
@@ -649,10 +766,66 @@ class Interp:
                     break
                 if not s.store.entails_ge0(ci):
                     ok = False
+                    import os
+                    if os.environ.get('ABSINT_CANDS') and os.environ['ABSINT_CANDS'] in repr(c):
+                        print('   [cand] %r rejected by state %d as %r bounds=%r path=%r' % (c, i, ci, s.store.bounds(ci), s.pathlist()[-4:]))
                     break
             if ok:
-                S.assume_ge0(c, propagate=False)
-                kept += 1
+                tk = c.key()[1]
+                o = good.get(tk)
+                if o is None or c.c < o.c:
+                    good[tk] = c
+        # equalities among kept candidates define a head symbol in terms of others: eliminate it, so that
+        # e.g. current_state = &state[depth-1] is carried syntactically
+        elim = {}
+        for tk, c in list(good.items()):
+            ng = good.get(c.neg().key()[1])
+            if ng is None or ng.c != -c.c:
+                continue
+            cc = c.subst(elim) if elim else c
+            pick = None
+            for x, k in cc.t.items():
+                if x in headsyms and abs(k) == 1 and x not in elim:
+                    isptr = any(p[1] == x and p[0][0] != 'env' and False for p in places)
+                    if pick is None or x.startswith('off'):
+                        pick = (x, k)
+            if pick is None:
+                continue
+            x, k = pick
+            rest = cc.sub(Aff.sym(x, k))
+            expr = rest.neg() if k == 1 else rest
+            if len(expr.t) > 3:
+                continue
+            for y in list(elim):
+                elim[y] = elim[y].subst({x: expr})
+            elim[x] = expr
+        if elim:
+            for c in list(good.values()):
+                pass
+            for name, v in list(H.top.env.items()):
+                if isinstance(v, Int) and any(x in elim for x in v.a.t):
+                    H.top.env[name] = Int(v.w, v.a.subst(elim), v.pred)
+                elif isinstance(v, Ptr) and any(x in elim for x in v.off.t):
+                    H.top.env[name] = Ptr(v.region, v.off.subst(elim))
+            for rname, cells in H.mem.items():
+                for k, (o, sz, v) in list(cells.items()):
+                    if isinstance(v, Int) and any(x in elim for x in v.a.t):
+                        cells[k] = (o, sz, Int(v.w, v.a.subst(elim), v.pred))
+                    elif isinstance(v, Ptr) and any(x in elim for x in v.off.t):
+                        cells[k] = (o, sz, Ptr(v.region, v.off.subst(elim)))
+            for x, expr in elim.items():
+                lo, hi = S.ivl.pop(x)
+                good[('lo', x)] = expr.sub(lo)
+                good[('hi', x)] = expr.neg().add(hi)
+                headsyms.discard(x)
+            H.tags['_elim'] = dict(elim)
+        for c in good.values():
+            if elim:
+                c = c.subst(elim)
+                if not c.t:
+                    continue
+            S.assume_ge0(c, propagate=False)
+            kept += 1
         S._propagate(set(headsyms))
         H.decide((fn.name, 0, '%s: joined %d disjuncts, %d head symbols, %d/%d candidate invariants kept' % (
             why, n, len(places), kept, len(cands))))
@@ -704,89 +877,132 @@ class Interp:
             return Ptr(v0.region, Aff.sym(hs))
         return Top('ptr' if any(isinstance(v, (Ptr, Null, Fn, Top)) for v in vals) else 'int', 'join')
 
-    def candidates(self, H, states, sig, places, common):
+    def candidates(self, H, states, sig, places, common, houdini=False):
         cands = {}
 
         def add(e):
-            cands.setdefault(e.key(), e)
+            if e.t:
+                cands.setdefault(e.key(), e)
         hsyms = [p[1] for p in places]
-        # (i) rewrite relational constraints of each state through its place values
+        hset = set(hsyms)
+        # (i) rewrite the relational constraints of each state through its place values:
+        #     a place whose value there is `sym + c` gives sym := head - c
         for i, s in enumerate(states):
+            if houdini and i > 0:
+                break
             inv = {}
             for hs in hsyms:
                 a = sig[i][hs]
-                for z, kz in a.t.items():
-                    if z not in common or True:
-                        inv.setdefault(z, []).append((hs, a, kz))
+                sg = a.single()
+                if sg and sg[1] == 1:
+                    inv.setdefault(sg[0], []).append(Aff.sym(hs).sub(a.c))
+            if not inv:
+                continue
             for e in s.store.rel:
-                if all(z in common for z in e.t) and e.key() in H.store.relset:
+                hit = [z for z in e.t if z in inv]
+                if not hit:
                     continue
-                # try to express e as k*value(place) + rest(common)
-                for z, kz in e.t.items():
-                    for (hs, a, az) in inv.get(z, ()):
-                        if kz % az:
-                            continue
-                        k = kz // az
-                        rest = e.sub(a.mul(k))
-                        r2 = rest
-                        ok = True
-                        # second place
-                        for z2, kz2 in list(rest.t.items()):
-                            if z2 in common:
-                                continue
-                            done = False
-                            for (hs2, a2, az2) in inv.get(z2, ()):
-                                if hs2 == hs or kz2 % az2:
-                                    continue
-                                k2 = kz2 // az2
-                                r3 = r2.sub(a2.mul(k2))
-                                if all(x in common for x in r3.t):
-                                    r2 = r3.add(Aff.sym(hs2, k2))
-                                    done = True
-                                    break
-                            if not done:
-                                ok = False
-                            break
-                        if ok and all((x in common or x in hsyms) for x in r2.t):
-                            add(r2.add(Aff.sym(hs, k)))
+                variants = [e]
+                for z in hit:
+                    nv = []
+                    for v in variants:
+                        for rep in inv[z][:2]:
+                            nv.append(v.subst({z: rep}))
+                    variants = nv[:4]
+                for v in variants:
+                    if all((x in common or x in hset) for x in v.t):
+                        add(v)
+        newset = hset
+        if houdini:
+            # later widening rounds only filter what the previous head already carried (termination);
+            # templates are offered once more only for places that became symbolic in this round
+            old = {p[1] for p in states[0].tags.get('_places', ())}
+            newset = set()
+            for hs in hsyms:
+                sg = sig[0][hs].single()
+                if not (sg and sg[1] == 1 and sig[0][hs].c == 0 and sg[0] in old):
+                    newset.add(hs)
+            if not newset:
+                return list(cands.values())
+        add0 = add
+
+        def add(e):
+            if any(x in newset for x in e.t):
+                add0(e)
         # (ii) two-point affine relations between pairs of head symbols
         if len(states) >= 2:
             for ai in range(len(hsyms)):
                 for bi in range(ai + 1, len(hsyms)):
                     x, y = hsyms[ai], hsyms[bi]
                     x0, y0 = sig[0][x], sig[0][y]
-                    found = False
+                    if not all(z in common for z in x0.t) or not all(z in common for z in y0.t):
+                        continue
                     for j in range(1, len(states)):
                         dx = sig[j][x].sub(x0)
                         dy = sig[j][y].sub(y0)
                         if dx.is_const() and dy.is_const() and (dx.c or dy.c):
-                            if not all(z in common for z in x0.t) or not all(z in common for z in y0.t):
-                                break
                             # dy*(X - x0) = dx*(Y - y0)
                             e = Aff.sym(x, dy.c).sub(x0.mul(dy.c)).sub(Aff.sym(y, dx.c)).add(y0.mul(dx.c))
                             add(e)
                             add(e.neg())
-                            found = True
                             break
-                    if found:
-                        continue
-        # (iii) template x <= y, x + 1 <= y between same-width int places (head or unchanged cells)
-        unchanged = []
+        # (ii-b) both places affine in one shared symbol within some state: eliminate that symbol
+        for i, s in enumerate(states):
+            single = {}
+            for hs in hsyms:
+                sg = sig[i][hs].single()
+                if sg:
+                    single.setdefault(sg[0], []).append((hs, sg[1], sig[i][hs].c))
+            for z, lst in single.items():
+                if len(lst) < 2 or len(lst) > 6:
+                    continue
+                for ai in range(len(lst)):
+                    for bi in range(ai + 1, len(lst)):
+                        (x, a1, c1), (y, a2, c2) = lst[ai], lst[bi]
+                        e = Aff.sym(x, a2).sub(Aff.sym(y, a1)).sub(a2 * c1 - a1 * c2)
+                        add(e)
+                        add(e.neg())
+        # (v) a place whose value in the first state is an expression over common symbols may have
+        #     that same value everywhere (syntactically different, semantically equal)
+        for x in hsyms:
+            x0 = sig[0][x]
+            if x0.t and all(z in common for z in x0.t):
+                e = Aff.sym(x).sub(x0)
+                add(e)
+                add(e.neg())
+        # (iii) templates between same-width int places (head symbols, unchanged cells, live SSA values)
+        unchanged = {}
         for rname, cells in H.mem.items():
-            if rname.startswith('L'):
-                continue
             for k, (o, sz, v) in cells.items():
-                if isinstance(v, Int) and v.a.single() and v.a.single()[1] == 1 and v.a.c == 0 and v.a.single()[0] not in hsyms:
-                    unchanged.append((v.a.single()[0], v.w))
+                if isinstance(v, Int):
+                    sg = v.a.single()
+                    if sg and sg[1] == 1 and v.a.c == 0 and sg[0] not in hset and sg[0] in common:
+                        unchanged[sg[0]] = v.w
+        for name, v in H.top.env.items():
+            if isinstance(v, Int):
+                sg = v.a.single()
+                if sg and sg[1] == 1 and v.a.c == 0 and sg[0] not in hset and sg[0] in common:
+                    unchanged[sg[0]] = v.w
         for (d, x, w) in places:
             for (d2, y, w2) in places:
                 if x != y and w == w2:
                     add(Aff.sym(y).sub(Aff.sym(x)))
-            for (y, w2) in unchanged:
-                if w == w2 and y in common:
+            for y, w2 in unchanged.items():
+                if w == w2:
                     add(Aff.sym(y).sub(Aff.sym(x)))
                     add(Aff.sym(y).sub(Aff.sym(x)).sub(1))
                     add(Aff.sym(x).sub(Aff.sym(y)))
+        # (iv) x + y = z among 64-bit head symbols (pointer offset + length = cursor)
+        wide = [p[1] for p in places if p[2] >= 32]
+        if 3 <= len(wide) <= 12:
+            for a in range(len(wide)):
+                for b in range(a + 1, len(wide)):
+                    for c in range(len(wide)):
+                        if c == a or c == b:
+                            continue
+                        e = Aff.sym(wide[a]).add(Aff.sym(wide[b])).sub(Aff.sym(wide[c]))
+                        add(e)
+                        add(e.neg())
         return list(cands.values())
 
     # ---- coverage ---------------------------------------------------------------------------------------------
@@ -795,6 +1011,8 @@ class Interp:
         for H in heads:
             if self.group_key(H, fn, lp) != k:
                 continue
+            if getattr(self, '_leq_dbg', False):
+                print('   [cmp] s(last=%r) vs H(last=%r)' % (s.pathlist()[-3:], H.pathlist()[-1][2][:50]))
             if self.leq(fn, lp, s, H):
                 return True
         return False
@@ -805,62 +1023,88 @@ class Interp:
         for p in H.tags.get('_places', ()):
             hs_syms.add(p[1])
 
+        deferred = []
+
         def match(hv, sv):
             if hv is None:
                 return True
             if sv is None:
-                return False
+                return self._why(1, locals())
             if veq(hv, sv):
                 return True
+            if isinstance(hv, Int) and isinstance(sv, Int) and hv.w == sv.w and len(hv.a.t) >= 1 and \
+                    any(x in hs_syms for x in hv.a.t) and not (hv.a.single() and hv.a.single()[1] == 1 and hv.a.c == 0):
+                deferred.append((hv.a, sv.a))
+                return True
+            if isinstance(hv, Ptr) and isinstance(sv, Ptr) and hv.region == sv.region and \
+                    any(x in hs_syms for x in hv.off.t) and not (hv.off.single() and hv.off.single()[1] == 1 and hv.off.c == 0):
+                deferred.append((hv.off, sv.off))
+                return True
+            if isinstance(hv, Int) and isinstance(sv, Int) and hv.w == sv.w and not any(x in hs_syms for x in hv.a.t):
+                if all(x in s.store.ivl for x in hv.a.t) and s.store.entails_eq0(hv.a.sub(sv.a)):
+                    return True
+            if isinstance(hv, Ptr) and isinstance(sv, Ptr) and hv.region == sv.region and not any(x in hs_syms for x in hv.off.t):
+                if all(x in s.store.ivl for x in hv.off.t) and s.store.entails_eq0(hv.off.sub(sv.off)):
+                    return True
             if isinstance(hv, Int) and isinstance(sv, Int) and hv.w == sv.w:
                 sg = hv.a.single()
                 if sg and sg[1] == 1 and hv.a.c == 0 and sg[0] in hs_syms:
                     if sg[0] in sigma and sigma[sg[0]] != sv.a:
-                        return False
+                        return self._why(2, locals())
                     sigma[sg[0]] = sv.a
                     return True
-                return False
+                return self._why(3, locals())
             if isinstance(hv, Ptr) and isinstance(sv, Ptr) and hv.region == sv.region:
                 sg = hv.off.single()
                 if sg and sg[1] == 1 and hv.off.c == 0 and sg[0] in hs_syms:
                     if sg[0] in sigma and sigma[sg[0]] != sv.off:
-                        return False
+                        return self._why(4, locals())
                     sigma[sg[0]] = sv.off
                     return True
-                return False
+                return self._why(5, locals())
             if isinstance(hv, Top):
                 return True
-            return False
+            return self._why(6, locals())
         live = self.live_names(fn, lp)
         for name, hv in H.top.env.items():
             if name in live and not match(hv, s.top.env.get(name)):
-                return False
+                return self._why(7, locals())
         for rname, hc in H.mem.items():
             sc = s.mem.get(rname, {})
             for kk, (o, sz, hv) in hc.items():
                 c = sc.get(kk)
                 if c is None or not match(hv, c[2]):
-                    return False
+                    return self._why(8, locals())
             if any(kk not in hc for kk in sc):
                 if H.tags.get(('havoc', rname)) != 'all' and H.regions[rname].content == 'cells':
-                    return False
+                    return self._why(9, locals())
         for tk, tv in s.tags.items():
             if tk[0] == 'default' and H.tags.get(tk) != tv and H.tags.get(tk) != 'unknown':
-                return False
+                return self._why(10, locals())
             if tk[0] == 'havoc' and tv and H.tags.get(tk) != 'all' and H.tags.get(tk) != tv:
-                return False
+                return self._why(11, locals())
         # store
         SS = s.store
         HS = H.store
+        for (ha, sa) in deferred:
+            hi_ = ha.subst(sigma)
+            if not all(x in SS.ivl for x in hi_.t):
+                return self._why(12, locals())
+            if not SS.entails_eq0(hi_.sub(sa)):
+                return self._why(13, locals())
         for sym, (lo, hi) in HS.ivl.items():
             if sym in sigma:
                 a, b = SS.bounds(sigma[sym])
+                if a < lo and SS.entails_ge0(sigma[sym].sub(lo)):
+                    a = lo
+                if b > hi and SS.entails_ge0(sigma[sym].neg().add(hi)):
+                    b = hi
             elif sym in SS.ivl:
                 a, b = SS.ivl[sym]
             else:
                 continue
             if a < lo or b > hi:
-                return False
+                return self._why(14, locals())
         for e in HS.rel:
             if not any(x in sigma for x in e.t):
                 if e.key() in SS.relset:
@@ -869,14 +1113,21 @@ class Interp:
             else:
                 ei = e.subst(sigma)
             if not all(x in SS.ivl for x in ei.t):
-                return False
+                return self._why(15, locals())
             if not SS.entails_ge0(ei):
-                return False
+                return self._why(16, locals())
         for sym, (z, o) in H.kb.items():
             z2, o2 = s.kb.get(sym, (0, 0))
             if (z & ~z2) or (o & ~o2):
-                return False
+                return self._why(17, locals())
         return True
+
+    def _why(self, n, loc):
+        import os
+        if os.environ.get('ABSINT_LEQ') and getattr(self, '_leq_dbg', False):
+            info = {k: loc.get(k) for k in ('name', 'rname', 'kk', 'sym', 'e', 'ei', 'ha', 'sa', 'hi_', 'tk', 'hv', 'sv', 'lo', 'hi', 'a', 'b') if k in loc}
+            print('   [leq] fail #%d %r' % (n, info))
+        return False
 
     def compact_exits(self, fn, exits):
         groups = {}
